@@ -704,7 +704,7 @@ func init() {
 		ID:   "C03",
 		Desc: "client/server transparency of every File operation at every version (real client <-> real server, scripted backend)",
 		Run:  func(rcx *RunCtx) { runC03Like(rcx, "C03", rcx.Plan.Choose(2) == 1) },
-		Quick: 48000, Thorough: 800000, QuickSecs: 60, ThorSecs: 1500,
+		Quick: 48000, Thorough: 3000000, QuickSecs: 60, ThorSecs: 1500,
 		Rule:  fmt.Sprintf("versions 0..7 in rotation (forced through a frame relay that rewrites the Tversion string), 10-50 client calls per run over all File methods (GetAttr, SetAttr, Walk 0-3 components, WalkGetAttr, Open, ReadAt, WriteAt, Readdir, Readlink, StatFS, FSync, Create, Mkdir, Symlink, Mknod, Link, Rename, RenameAt, UnlinkAt, Lock, GetXattr, ListXattrs, SetXattr/RemoveXattr) with generated arguments (half of the runs boundary-biased: 0, 2^k+-1, max, sentinels, names with NUL/high bytes/255/4000 bytes) against a backend whose results are scripted by the generator (QIDs, masks, attrs, stats, strings, lock status, dirents) and whose calls fail 1/3 of the time with one of %d error shapes (linux.Errno, syscall.Errno, os.Err*, *PathError/*LinkError/*SyscallError, %%w chains, errors.Join, opaque, io.EOF for reads/listings); handles from attach (5 attach names), walk, create, clone. Oracle: backend call log — the right method on the handle the client File was derived from, arguments equal modulo the documented rewrites (07777, uid/gid dropped below version 3, one component per walk, Rename/Remove as RenameAt/UnlinkAt on the parent under the current name); returned values equal the scripted ones; errors = the errno in the chain, else the os.Err* mapping, else EIO; wire: only message types of the negotiated version, every frame laid out per spec. Input/configuration property.", len(c03Errors)),
 		Real:   []string{"p9.Client", "p9 client files", "p9.Server", "p9 handlers", "p9 wire codec", "linux.ExtractErrno"},
 		Stub:   []string{"transport (simnet pipes + frame relay)", "backend tree (simfs, scripted results)"},
